@@ -163,5 +163,32 @@ KernelBehaviour(poly) ==
    steps |-> <<[op |-> "polygon", poly |-> PolyM(poly),
                 pts |-> [i \in 1..Len(ps) |-> <<ps[i][1] * UnitM, ps[i][2] * UnitM, IF InClosed(path, ps[i]) THEN 1 ELSE 0>>]]>>]
 
-Emit == ~IsPolygon \/ PrintT(<<"B", ToJson(IF Mode = "world" THEN WorldBehaviour(path) ELSE KernelBehaviour(path))>>)
+(***************************************************************************)
+(* Spherical rendering: lattice unit = 5 degrees, footprints placed at three *)
+(* longitudes: ordinary, straddling the +-180 meridian (coordinates up to   *)
+(* 215 degrees) and given beyond -180 (down to -215).  Boundary points are   *)
+(* not asserted here (degrees -> radians is inexact); interior and exterior  *)
+(* lattice points are at least 2.5 degrees from any edge line ... at least   *)
+(* 1/20 of a lattice unit, far above rounding.  Query points are also given  *)
+(* with longitude +- 360.                                                    *)
+(***************************************************************************)
+RS == 6371000
+Lon0s == <<-20, 175, -215>>
+SphPoly(poly, lon0) == [i \in 1..Len(poly) |-> <<lon0 + 5 * poly[i][1], 10 + 5 * poly[i][2]>>]
+SphDoc(poly, lon0) == World(Spherical("begin segment"),
+                        [t \in 1..3 |-> Area(Types[t], "a" \o ToString(t), SphPoly(poly, lon0), TopOf(t), BotOf(t),
+                                             <<>>, <<CUniform(<<t>>, "replace")>>, <<>>, <<>>)])
+SphRows(poly, lon0, t, alias) ==
+  LET ps == SetToSeq({p \in ProbeSet : ~OnBoundary(poly, p)}) IN
+  [k \in 1..Len(ps) |-> LET inside == InClosed(poly, ps[k]) IN
+     <<RS - (TopOf(t) + 15 * Km), lon0 + alias + 5 * ps[k][1], 10 + 5 * ps[k][2], TopOf(t) + 15 * Km, IF inside THEN 1 ELSE 0, IF inside THEN t ELSE 0>>]
+SphBehaviour(poly) ==
+  [id |-> <<"polygon-sph", poly>>, labels |-> <<"area-extent", "spherical", "v" \o ToString(Len(poly))>>,
+   steps |-> FlattenSeq([l \in 1..3 |->
+               <<[op |-> "create", h |-> l, wb |-> SphDoc(poly, Lon0s[l])]>> \o
+               [t \in 1..3 |-> [op |-> "qtable", h |-> l, dim |-> 3, sph |-> TRUE, props |-> <<PC(t), PTag>>,
+                                 checks |-> <<[k |-> "eq", at |-> 0, col |-> 4], [k |-> "tagname", at |-> 1, col |-> 5, names |-> <<FALSE>> \o Types]>>,
+                                 rows |-> SphRows(poly, Lon0s[l], t, <<0, 360, -360>>[t])]]])]
+
+Emit == ~IsPolygon \/ PrintT(<<"B", ToJson(CASE Mode = "world" -> WorldBehaviour(path) [] Mode = "world-sph" -> SphBehaviour(path) [] OTHER -> KernelBehaviour(path))>>)
 =============================================================================
